@@ -388,6 +388,20 @@ NextSimExact == (\E w \in Rep(4) : AcctStep)
                 \/ (\E w \in Rep(3) : \E x \in Accts, o \in Objs : \E ps \in PrivSets(o) : GrantPriv(x, o, ps))
                 \/ (\E w \in Rep(3) : UsefulRevoke) \/ NoopRevoke
                 \/ (\E w \in Rep(4) : RoleStep)
+\* C39: histories that reach, early, an account and one of its granted roles holding table-level
+\* privileges on the SAME table (the session's privilege set is then the merge of two entries for one
+\* table), and go on with role / account / revoke steps
+TblP == (TblPrivs \cap Privs) \ {"GRANT OPTION"}
+SeedTbl == \E x \in Accts, d \in Dbs, t \in Tbls, p \in TblP : x \in exists /\ GrantPriv(x, TblObj(d, t), {p})
+Mirror == \E x \in Accts, y \in Accts, p \in TblP : \E g \in grants[x] :
+              (g.tbl # "*" /\ x \in exists /\ y \in exists /\ ((x \in Roles) # (y \in Roles)) /\ p # g.p
+                  /\ Atom(TblObj(g.db, g.tbl), p) \notin grants[y])
+              /\ GrantPriv(y, TblObj(g.db, g.tbl), {p})
+CompleteEdge == \E r \in Roles, u \in Users, adm \in BOOLEAN :
+                    (EdgesOf(r, u) = {} /\ \E x \in grants[u], y \in grants[r] : x.tbl # "*" /\ x.db = y.db /\ x.tbl = y.tbl /\ x.p # y.p)
+                    /\ GrantRole(r, u, adm)
+NextSimOverlap == AcctStep \/ SeedTbl \/ (\E w \in Rep(20) : Mirror) \/ (\E w \in Rep(40) : CompleteEdge)
+                  \/ (\E w \in Rep(6) : RoleStep) \/ UsefulRevoke
 NextSimAll == SimCore \/ (\E w \in Rep(12) : SessStep) \/ (\E w \in Rep(60) : PersistReload)
                       \/ (\E w \in Rep(100) : MixDyn)
 
@@ -438,5 +452,9 @@ DropForgets == [][(act'.name = "DropAcct" /\ ret' = "ok") => (grants'[act'.a] = 
 \* ---- transition dump / behaviour dump (binding A) --------------------------------------------------
 StJson(s) == [accts |-> {[a |-> a, locked |-> s.locked[a], pw |-> s.pw[a], g |-> s.grants[a], d |-> s.dyn[a]] : a \in s.exists},
               edges |-> s.edges, active |-> s.active, defrole |-> s.defrole]
-Emit == PrintT("TR " \o ToJson([step |-> step', act |-> act', ret |-> ret', pre |-> StJson(StateRec)]))
+\* (for sampling and coverage accounting only) an account and one of its granted roles hold different
+\* table-level privileges on one table
+TblOverlap(G, E) == \E e \in E : \E x \in G[e.to], y \in G[e.r] : x.tbl # "*" /\ x.db = y.db /\ x.tbl = y.tbl /\ x.p # y.p
+Emit == PrintT("TR " \o ToJson([step |-> step', act |-> act', ret |-> ret', pre |-> StJson(StateRec),
+                                 ov |-> [pre |-> TblOverlap(grants, edges), post |-> TblOverlap(grants', edges')]]))
 =============================================================================
